@@ -75,7 +75,8 @@ m("c11-precision-ignored", "C11", UL, '            precision = dictionary["preci
 m("c11-parities-correlations-first-only", "C11", PA, '                convert_array_to_dict(arr) for arr in self.correlations\n', '                convert_array_to_dict(arr) for arr in self.correlations[:1]\n', "only the first correlation frame of parities saved")
 m("c11-opset-skips-empty", "C11", OI, "    for operator in operator_set:\n        dictionary", "    for operator in operator_set:\n        if not operator.terms:\n            continue\n        dictionary", "empty operators skipped in operator sets")
 # ------------------------------------------------------------------ C12
-m("c12-no-rollback", "C12", WF, "            if isinstance(self._amplitude_vector, np.ndarray):\n                self._amplitude_vector[...] = old_amplitudes\n            else:\n                self._amplitude_vector[:, :] = old_amplitudes\n\n            raise", "            raise", "rollback removed")
+m("c12-no-rollback", "C12", WF, "            if isinstance(self._amplitude_vector, np.ndarray):\n                self._amplitude_vector[...] = old_amplitudes\n            else:\n                self._amplitude_vector[:, :] = old_amplitudes\n", "            pass\n", "rollback removed")
+m("c12-rollback-valueerror-only", "C12", WF, "        except Exception as error:", "        except ValueError as error:", "rollback armed for ValueError only (the repaired defect F13)")
 m("c12-validate-before-write", "C12", WF, "        self._amplitude_vector[idx] = val\n\n        try:\n            self._check_normalization(self._amplitude_vector)", "        try:\n            self._check_normalization(self._amplitude_vector)\n            self._amplitude_vector[idx] = val", "validation happens before the write")
 m("c12-bind-unchecked", "C12", WF, "        try:\n            return type(self)(result)\n        except ValueError:", "        try:\n            out = object.__new__(type(self))\n            out._amplitude_vector = result\n            return out\n        except ValueError:", "bind builds its result without the constructor check")
 m("c12-dicke-off-by-one", "C12", WF, "                if not _most_significant_set_bit(current_value) <= n_qubits:", "                if not _most_significant_set_bit(current_value) < n_qubits:", "Dicke enumeration stops one bit early")
